@@ -78,7 +78,9 @@ class RequestChannelCommon(StreamHandler, Publisher, Subscription, Disposable, m
             if frame.flags_complete:
                 self.mark_completed_and_finish(received=True)
         elif isinstance(frame, ErrorFrame):
-            self.remote_subscriber.on_error(error_frame_to_exception(frame))
+            if not self._received_complete:
+                self.remote_subscriber.on_error(error_frame_to_exception(frame))
+
             self.mark_completed_and_finish(received=True)
 
     def dispose(self):
